@@ -300,7 +300,8 @@ Section Sound.
                     eq_refl (or_introl eq_refl) IP2 Fw Fo s1 s2 (snd L) R1' R2' Vw Vo) as EQ.
       assert (A1 : val s1 (x, []) = val sp (x, [])) by (apply R1; exact Hx).
       assert (A2 : val s2 (x, []) = val sq (x, [])) by (apply R2; exact Hx).
-      assert (EQ2 : l + (0 + Z.of_nat p) * t = l + (0 + Z.of_nat q) * t) by congruence.
+      assert (EQ2 : l + (0 + Z.of_nat p) * t = l + (0 + Z.of_nat q) * t)
+        by exact (eq_trans (eq_sym Xp) (eq_trans (eq_sym A1) (eq_trans EQ (eq_trans A2 Xq)))).
       apply Npq. apply Nat2Z.inj. nia.
   Qed.
 End Sound.
